@@ -435,7 +435,13 @@ def gen(ctx):
 # --------------------------------------------------------------------------------------------
 def run_table(ctx, case, prop):
     name, n = case["alg"], case["n"]
-    alg = table_algorithm(name, n, case["cone"], case["eps"])
+    try:
+        alg = table_algorithm(name, n, case["cone"], case["eps"])
+    except Exception as e:
+        viol(ctx, f"crash:{name}.__init__:{core.exc_key(e)}", f"{name} constructor raised {type(e).__name__}: {e}",
+             case, kind="R")
+        ctx.case_done(case, False)
+        return
     ctx.count("table_" + name)
     ctx.count("shape_" + case["shape"])
     S0, P0, U0 = sset(case["S"]), sset(case["P"]), sset(case.get("U", []))
@@ -454,7 +460,7 @@ def run_table(ctx, case, prop):
             return orc, e, None
         except Exception as e:
             viol(ctx, f"crash:{name}.{method}:{core.exc_key(e)}", f"{name}.{method}() raised {type(e).__name__}: {e}",
-                          case, kind="F")
+                          case, kind="R")
             return orc, e, None
         report_oracle_problems(ctx, orc, case, method)
         return orc, None, out
@@ -599,12 +605,18 @@ def install_auer(alg, case, S_order):
 
 def run_auer(ctx, case, prop):
     n, m, eps = case["n"], case["m"], case["eps"]
-    alg = auer_algorithm(n, m, eps)
     ctx.count("auer_" + case["shape"])
     C, Wd = core.qmat(case["centres"]), core.qmat(case["widths"])
     S0, P0 = list(case["S"]), sset(case["P"])
     rows0 = core.qmat([case["widths"][i] for i in S0])
-    install_auer(alg, case, S0)
+    try:
+        alg = auer_algorithm(n, m, eps)
+        install_auer(alg, case, S0)  # (detects the form of beta_t by running a tiny real Auer.modeling())
+    except Exception as e:
+        viol(ctx, "crash:Auer.__init__/modeling:" + core.exc_key(e), f"Auer constructor / modeling() raised "
+             f"{type(e).__name__}: {e}", case, kind="R")
+        ctx.case_done(case, False)
+        return
     try:
         alg.discarding()
     except Exception as e:
@@ -760,12 +772,27 @@ def build_run_algorithm(case):
     return stubs.build(name, in_data=X, out_data=Y, model=mdl, **kw, **common)
 
 
+class RealCodeCrash(Exception):
+    """an exception escaped from real VOPy code called by the harness outside `run_one_step()`"""
+
+    def __init__(self, phase, exc):
+        super().__init__(f"{phase}: {type(exc).__name__}: {exc}")
+        self.phase, self.exc = phase, exc
+
+
+def is_known_rect_slack_crash(alg, e):
+    """`rect-slack-per-facet`: rectangular is_covered rejects the N-entry slack ε·α when N ≠ m"""
+    return (core.exc_key(e) == "ValueError@confidence_region.py:is_covered"
+            and getattr(alg, "verif_name", "") in ("PaVeBaGP-IH", "PaVeBaPartialGP-rect"))
+
+
 def geometry_tables(alg, active, want_pess, want_cov=True):
-    """HOOK — oracle Booleans on the real displayed regions.  For now the three real predicates of
-    `vopy.confidence_region` are called once more outside the algorithm with the slack the
-    algorithm must pass; exact models of C09 / C10 / C11 (Lean, with the borderline band) can
-    replace these three calls without touching the rest of the stream.
-    Returns (n, dom, cov, pess) as n×n Boolean arrays, False outside `active`."""
+    """Oracle Booleans on the real displayed regions obtained by calling the three real predicates of
+    `vopy.confidence_region` once more outside the algorithm, with the slack the algorithm must pass
+    (transition-logic check; the geometry itself is checked by `check_round_exact`).
+    Returns (n, dom, cov, pess) as n×n Boolean arrays, False outside `active`.  Any exception of the
+    real code is re-raised as `RealCodeCrash` (the caller turns it into an (R) violation), except the
+    known `rect-slack-per-facet` ValueError, which leaves the entry False."""
     is_dom, is_cov, chk = stubs.real_geometry()
     regs = alg.design_space.confidence_regions
     n = len(regs)
@@ -775,16 +802,23 @@ def geometry_tables(alg, active, want_pess, want_cov=True):
         for j in active:
             if i == j:
                 continue
-            dom[i][j] = bool(is_dom(alg.order, regs[i], regs[j], sl["dom"]))
+            try:
+                dom[i][j] = bool(is_dom(alg.order, regs[i], regs[j], sl["dom"]))
+            except Exception as e:
+                raise RealCodeCrash("is_dominated", e) from e
             if want_cov:
                 try:
                     cov[i][j] = bool(is_cov(alg.order, regs[i], regs[j], sl["cov"]))
-                except ValueError:
-                    # rectangular is_covered rejects the N-entry slack ε·α when N ≠ m (known finding
-                    # rect-slack-per-facet): if the real step survived, it never evaluated such a pair
+                except Exception as e:
+                    if not is_known_rect_slack_crash(alg, e):
+                        raise RealCodeCrash("is_covered", e) from e
+                    # if the real step survived, it never evaluated such a pair
                     cov[i][j] = False
             if want_pess:
-                pess[i][j] = bool(chk(alg.order, regs[i], regs[j]))
+                try:
+                    pess[i][j] = bool(chk(alg.order, regs[i], regs[j]))
+                except Exception as e:
+                    raise RealCodeCrash("check_dominates", e) from e
     return n, dom, cov, pess
 
 
@@ -867,7 +901,11 @@ def run_real(ctx, case, prop):
                     # the crash is in pareto_updating (C03's mechanism, reported there); the discarding phase
                     # of this round completed and is still checked
                     ctx.count("rect_slack_crash_after_discarding_info")
-                    check_round(ctx, case, prop, alg, trace, rnd)
+                    try:
+                        check_round(ctx, case, prop, alg, trace, rnd)
+                    except RealCodeCrash as c:
+                        viol(ctx, f"crash:{c.phase}:{core.exc_key(c.exc)}", f"{name}: the real {c.phase} raised "
+                             f"{type(c.exc).__name__}: {c.exc}", case, kind="R", detail={"round": rnd})
                     break
                 what = (f"{name}: passes the per-facet vector ε·α (N entries) to the rectangular is_covered, which "
                         "insists on m entries → ValueError for a cone with N ≠ m facets")
@@ -877,7 +915,13 @@ def run_real(ctx, case, prop):
             viol(ctx, key, what, case, kind="R", detail={"round": rnd})
             break
         ctx.count("rounds")
-        nt = check_round(ctx, case, prop, alg, trace, rnd)
+        try:
+            nt = check_round(ctx, case, prop, alg, trace, rnd)
+        except RealCodeCrash as c:
+            viol(ctx, f"crash:{c.phase}:{core.exc_key(c.exc)}", f"{name}: the real {c.phase} raised "
+                 f"{type(c.exc).__name__}: {c.exc} on displayed regions with the algorithm's own slack", case,
+                 kind="R", detail={"round": rnd})
+            break
         nontrivial = nontrivial or nt
     ctx.case_done(case, nontrivial, canon=[name, case["cone"], case["in_data"], case["out_data"], case["seed"],
                                            case.get("vars"), case.get("L"), case["conf"], case["eps"]])
@@ -965,7 +1009,9 @@ def check_round(ctx, case, prop, alg, trace, rnd):
                 for s in S2:
                     try:
                         extra[s][p] = bool(is_cov(alg.order, regs[s], regs[p], sl))
-                    except ValueError:
+                    except Exception as e:
+                        if not is_known_rect_slack_crash(alg, e):
+                            raise RealCodeCrash("is_covered", e) from e
                         extra[s][p] = False
             mU = core.parse_nats(ctx.ask("useful", core.nats(S2), core.nats(P2), ns, bits(np.logical_or(cov, extra))))
         if U2 != mU:
@@ -1094,7 +1140,10 @@ def exact_tables(ctx, alg, case, active, want_pess, cov_pairs):
             cov[i][j] = "?"
             ctx.count("ellcov_no_exact_factor")
             continue
-        cert = _propose_ell_cert(W, C[i], fac[i], A[i], C[j], fac[j], A[j], tvec)
+        try:
+            cert = _propose_ell_cert(W, C[i], fac[i], A[i], C[j], fac[j], A[j], tvec)
+        except Exception:
+            cert = None
         if cert is None:
             cov[i][j] = "?"
             ctx.count("ellcov_numeric_failed")
